@@ -179,6 +179,7 @@ def t12(repo, res, canon, logic):
     if shape == 'tuple':
         S, F = g.targets[0].elts[1].id, g.targets[0].elts[3].id
         FINS = {F}
+        SS = {S}
     else:
         # step = _generate_current_schedule(..); schedule = step[1]; finished = step[3] (or tested directly)
         R = g.targets[0].id
@@ -195,7 +196,9 @@ def t12(repo, res, canon, logic):
             return
         S = ss[0]
         F = '%s[3]' % R
-        FINS = {F} | set(comp(3))
+        r3 = ast.Subscript(value=ast.Name(id=R, ctx=ast.Load()), slice=ast.Constant(value=3), ctx=ast.Load())
+        FINS = {F, canon.c(r3, afr), ProvCanon(repo).p(r3, afr)} | set(comp(3))
+        SS = {S, '%s[1]' % R}
     loops = [l for l in enclosing_loops(a, g) if isinstance(l, ast.While)]
     if not loops:
         res.bad('C04.T12', a, g, 'schedule generated outside a loop', 'the schedule is generated once, not every timestep')
@@ -224,7 +227,7 @@ def t12(repo, res, canon, logic):
         if not any(e.kind == 'stmt' and any(x is g.value for x in ast.walk(e.node)) for e in seg):
             ok, why = False, 'a round of the allocation loop does not ask the algorithm for a schedule'
             continue
-        if how in ('break', 'return'):
+        if how in ('break', 'return', 'fall'):
             n_leave += 1
             if not fin:
                 ok, why = False, ('the allocation loop is left on a path that has not established that the workflow is finished: '
@@ -232,7 +235,7 @@ def t12(repo, res, canon, logic):
             continue
         calls = [x for e in seg if e.kind == 'stmt' for x in ast.walk(e.node)
                  if isinstance(x, ast.Call) and call_name(x) == '_process_current_schedule']
-        empty = Lit('truthy(%s)' % S, False) in must or Lit('empty(%s)' % S, True) in must
+        empty = any(Lit('truthy(%s)' % x, False) in must or Lit('empty(%s)' % x, True) in must for x in SS)
         if fin or empty:
             continue
         if not calls:
